@@ -893,7 +893,19 @@ struct Renderer {
     else if (op.k == "fal") doc += "false";
     else if (op.k == "num") doc += valid_number(op.b) ? op.b : std::string("0");
     else if (op.k == "str") doc += '"' + render_spec(op.b).text + '"';
-    else if ((op.k == "arr" || op.k == "obj") && depth < 5) {
+    else if (op.k == "deep") {
+      // a scalar inside D containers (arrays and one-member objects, chosen by the bits of the pattern): deep, and valid
+      int D = op.a.empty() ? 64 : (int)std::max<int64_t>(1, std::min<int64_t>(1200, op.a[0]));
+      uint64_t pat = op.a.size() > 1 ? (uint64_t)op.a[1] : 0;
+      std::string close;
+      for (int d = 0; d < D; d++) {
+        bool isobj = (pat >> (d % 61)) & 1;
+        doc += isobj ? "{\"k\":" : "[";
+        close.insert(close.begin(), isobj ? '}' : ']');
+      }
+      doc += "1" + close;
+      maxdepth = std::max(maxdepth, depth + D);
+    } else if ((op.k == "arr" || op.k == "obj") && depth < 5) {
       bool isobj = op.k == "obj";
       int n = op.a.empty() ? 0 : (int)std::max<int64_t>(0, std::min<int64_t>(6, op.a[0]));
       doc += isobj ? '{' : '[';
@@ -1012,6 +1024,11 @@ static std::string rand_name(Prng &r) {
   return s;
 }
 static void gen_value(Case &c, Prng &r, int depth, const std::vector<std::string> &top_names) {
+  if (depth == 0 && r.upto(19) == 0) {
+    static const int DS[] = {30, 63, 64, 65, 100, 127, 128, 129, 255, 256, 257, 500, 1000};
+    c.push_back(Op("deep", {DS[r.upto(12)], (int64_t)(r.upto(2) == 0 ? 0 : r.upto(2) == 0 ? -1 : (int64_t)r.upto(1 << 30) * 977)}));
+    return;
+  }
   int k = r.upto(depth == 0 ? 13 : 17);
   static const std::vector<std::string> nums = {"0", "-0", "1", "-1", "12", "3.25", "-0.5", "1e5", "1E-5", "2.5e+10", "-1.0E+2", "123456789012345678901234567890", "0.000001", "9e0"};
   if (depth < 5 && k < (depth == 0 ? 7 : 5)) {
@@ -1206,6 +1223,7 @@ static Outcome run_json(const Case &c) {
   if (found >= 0 && mem[(size_t)found].name.has_simple) o.cls("matched-name-has-simple-escape");
   if (R.ws_emitted >= 3) o.cls("white-space>=3-places");
   if (R.maxdepth >= 3) o.cls("depth>=3");
+  if (R.maxdepth >= 64) o.cls(found >= 0 ? "depth>=64, key found" : "depth>=64, key absent");
   if (mem.empty()) o.cls("empty-object");
   if (found > 0 || u_target || dup || prefix) o.nontrivial = true;
   return json_check(o, doc, key, expect);
